@@ -122,7 +122,10 @@ CHECKS = {
         text="HotCold.tla refines every store operation into its hot and cold halves with interruptions in between; TLC proves "
              "HotComplete and NoDataInHot in every state for the implemented orders and shows both swapped orders fail. Real "
              "histories (backup, forget, prune, config, repair-index, real restore to disk, check) run on a hot/cold pair of "
-             "in-memory stores on one clock, the cold one rejecting reads without prior warm-up in two thirds of the runs; "
+             "in-memory stores on one clock, the cold one rejecting reads without prior warm-up in two thirds of the runs and "
+             "forgetting every warm-up at each command start and before each restore run (WarmUp.tla is the design model of that "
+             "protocol: TLC checks WarmBeforeRead over all restore plans and shows a first-blob warm-up list fails); restores are "
+             "repeated over the restored copy with every file touched and one file outdated in turn; "
              "HotColdTrace.tla checks HotComplete/NoDataInHot after every store operation, WarmBeforeRead at every cold read, "
              "equivalence with a twin run on a single store, and completeness after removing classes of hot files + repair.",
         note="Each store operation is atomic; interruption = stop between two operations of the combined log. check --read-data "
